@@ -50,7 +50,7 @@ def handles_ref(case, raw):
 class C06(ConcBase):
     id = "C06"
     design_ref = "DESIGN.md section 5 / C06"
-    theorems_note = ("for every number of threads, all programs and every schedule (Reach): rc_accounting (before the teardown the "
+    theorems_note = ("handles_stay_valid (while any thread holds any handle the teardown has not started and every block of the tree is live and unfreed); multi-tree handle machine (Handles.v): handles_reclaim / step_reports / no_leak over clone, child, drop, clone_from, swap on n trees; for every number of threads, all programs and every schedule (Reach): rc_accounting (before the teardown the "
                      "reference count = owned handles + compensation queued in loser paths; a thread inside an operation owns a handle), "
                      "count_positive, teardown_alone (never earlier: the step that starts the teardown reads 1 and no other thread owns a "
                      "handle or is inside an operation), free_once (never twice: freed blocks are pairwise different and not live; every "
